@@ -9,11 +9,12 @@ V = Path(__file__).resolve().parent.parent
 sys.path.insert(0, str(V / "harness"))
 ids = [json.loads(l)["id"] for l in (V / "properties.jsonl").read_text().splitlines() if l.strip()]
 NA_REASONS = json.loads((V / "tools" / "not_applicable.json").read_text())
+CLAIMED = set(json.loads((V / "tools" / "claimed.json").read_text()))   # properties whose check is finished and green on /repo
 checks, na = [], []
 for pid in ids:
     f = V / "harness" / "props" / f"{pid}.py"
-    if not f.exists():
-        na.append({"property_id": pid, "reason": NA_REASONS.get(pid, "no check built yet for this property (see DESIGN.md section 3 for the plan)")})
+    if not f.exists() or pid not in CLAIMED:
+        na.append({"property_id": pid, "reason": NA_REASONS.get(pid, "check still under construction at this commit (plan: DESIGN.md section 3); not claimed until it is green on the unchanged tree")})
         continue
     m = importlib.import_module(f"props.{pid}")
     checks.append({
